@@ -17,6 +17,8 @@ CLAIMED = {
    text='Seeded search over histories in which HTLC/PTLC outputs are created on the sender clock and then attacked by receiver, sender and an outsider (who learns preimages only from published claims) on validators whose clocks are skewed, fractional, stepping (also between the two reads of one validation) or frozen, with single-bit corruption of witness items and all 24 witness-kind x lock-kind cross pairings. Two independent oracles judge every attempt. Exploration is the right level: deadlines are relations between two clocks the tests never control.'),
  'C14': dict(section='3.2', technique='deterministic simulation: seeded lease histories (root, foreign root, delegate chains 1-6, attacker) with validator clock faults (skew, fractional, step between reads, freeze) and transport tampering (bit flips per certificate field, splice, drop, dup, reorder); item-level and who-level reference models on recorded clock reads',
    text='Certificates are leases: seeded search over issuance chains and spend attempts validated on simulated clocks that are skewed, fractional, frozen or step between the two timestamp reads of a link, with single-bit corruption of every certificate field and of the final signature, cross-root splices, dropped/duplicated/reordered links, non-delegable mid-chain links, wrong signers, cross-lock witnesses and replays after expiry; every certificate is round-tripped. Exploration is the right level: window membership is a relation between t and a clock the tests never control.'),
+ 'C20': dict(section='3.7', technique='deterministic simulation: mixed-version network of validator processes (fork per node), seeded activation instants, crash-restarts, invalid activations and delayed / duplicated / reordered transaction delivery; closed-form NOP oracle, exact fork-transaction oracle and pairwise compatibility check over the delivery history',
+   text='Each validator is its own OS process forked from the pristine image; activation of 1-3 conforming soft forks is an event in each node history (or never happens, or is attempted with invalid arguments, or is lost by a crash-restart). Closed-form NOP probes, fork transactions and generated programs with the forked code nested to depth 3 are delivered to every node with seeded delay, duplication and reordering, so the same bytes meet a node before and after its activation. Checked at every delivery and over the history: NOP semantics, exact fork-transaction verdicts, accept under S implies accept under every subset of S, one bytecode across spellings and versions, reachability by name and aliases, failed activations change nothing. Exploration is the right level: the property is about version skew across a network, which only the simulator can schedule.'),
 }
 NA = {
  'C01': 'verdict is a function of (script list, cache, limits) computed in one synchronous call; no clock, schedule, fault or history to simulate (its never-raises clause is only carried as an auxiliary probe)',
